@@ -56,7 +56,9 @@ type c19tx struct {
 
 func txPrefix(i int) []byte {
 	p := make([]byte, 32)
-	p[0] = byte(0xf0 - i*7) // not in queue order, never all zero
+	// neither ascending nor descending in queue order (every window of three
+	// consecutive transactions is non-monotone), never all zero
+	p[0] = [...]byte{0x90, 0x30, 0xd0, 0x10, 0x70, 0xb0, 0x50, 0xf0}[i%8] + byte(i/8)
 	p[31] = byte(i)
 	return p
 }
